@@ -291,6 +291,35 @@ func (ec *emCtx) match(p, g *sx, vars map[string]bool, m map[string]*sx, depth i
 		if len(restP) == 1 && len(restG) == 1 {
 			return ec.match(restP[0], restG[0], vars, m, depth+1)
 		}
+		// one unbound variable plus ground summands on the pattern side:
+		// v := (sum of the ground side) - (the pattern's other summands)
+		var pv string
+		var pground []*sx
+		for _, a := range restP {
+			if a.list == nil && vars[a.atom] {
+				if _, bound := m[a.atom]; !bound && pv == "" {
+					pv = a.atom
+					continue
+				}
+			}
+			if hasVar(a, vars) {
+				return false
+			}
+			pground = append(pground, a)
+		}
+		if pv != "" && len(pground) > 0 && len(pground) <= 2 {
+			mk := func(xs []*sx) *sx {
+				switch len(xs) {
+				case 0:
+					return atom("#x0000000000000000")
+				case 1:
+					return xs[0]
+				}
+				return &sx{list: append([]*sx{atom("bvadd")}, xs...)}
+			}
+			m[pv] = lst(atom("bvsub"), mk(restG), mk(pground))
+			return true
+		}
 		return false
 	}
 	if g.list == nil {
